@@ -4,6 +4,7 @@
 # against it (VERIF_REPO), prints one line per check, removes the worktree.  Never touches /repo's working tree.
 set -u
 P="$1"; TIER="$2"; shift 2
+case "$P" in revert:*) ;; /*) ;; *) P="$(pwd)/$P" ;; esac
 WT=$(mktemp -d /var/tmp/mut.XXXXXX)
 rmdir "$WT"
 git -C /repo worktree add -q --detach "$WT" HEAD || exit 3
